@@ -59,6 +59,8 @@ def gen(rng, idx, tier, seed):
                                          ])),
                 'step': float(rng.choice([1.0, 0.5, 6.0, 24.0, 90.0])),
                 'start': float(rng.integers(0, 1000)),
+                'tzoffset_min': int(rng.choice([0, 0, -300, 330, 540, -30])),
+                'aware': bool(rng.random() < 0.6),
                 'method': str(rng.choice(['nearest', 'exact', 'bounds']))}
     n = int(rng.integers(2, 13))
     return {
@@ -348,6 +350,12 @@ def run_time(spec, res):
     times = np.array([datetime.datetime(t.year, t.month, t.day, t.hour,
                                         t.minute, t.second, t.microsecond)
                       for t in ref])
+    if spec.get('aware'):
+        # the same instants expressed in another time zone
+        tz = datetime.timezone(datetime.timedelta(
+            minutes=spec.get('tzoffset_min', 0)))
+        times = np.array([t.replace(tzinfo=datetime.timezone.utc)
+                          .astimezone(tz) for t in times])
     problems = []
     try:
         idx = f.time2idx(times, method=spec['method'], bounds='ignore')
@@ -360,7 +368,10 @@ def run_time(spec, res):
     except Exception as ex:
         res.hook('time2idx.return')
         problems.append('time2idx raised %r' % (ex,))
-    res.ev(digest(spec), n >= 2, ['time2idx', 'method:' + spec['method']])
+    res.ev(digest(spec), n >= 2, ['time2idx', 'method:' + spec['method'],
+                                  'tz:%s' % (spec.get('tzoffset_min', 0)
+                                             if spec.get('aware')
+                                             else 'naive')])
     if problems:
         res.viol('wrong-time-index:' + spec['method'],
                  '; '.join(problems), method=spec['method'])
